@@ -47,6 +47,9 @@ type c19 struct {
 }
 
 func (r *c19) obs() string {
+	if blindObs { // second, query-free execution (Stream.Blind)
+		return "-"
+	}
 	b := distinct.VerifBuf(r.c)
 	sort.Ints(b)
 	used := strconv.Itoa(r.src.used)
